@@ -42,6 +42,7 @@ def run(tier, seed, replay=None):
             cases.append(dict(kind="rr-seq", members=members, count=k * len(members), tasks=1, algo=None, targets=[q[2]]))
         for tasks in ([4, 16] if tier == "quick" else [2, 4, 8, 16, 32]):
             cases.append(dict(kind="rr-conc", members=members, count=6 * len(members), tasks=tasks, algo=None, targets=[q[2]]))
+            cases.append(dict(kind="rr-conc", members=members, count=(400 if tier == "quick" else 2000) * len(members), tasks=tasks, algo=None, targets=[q[2]]))
         # a window that does not start at ticket 0: two runs on the same instance are not possible per op,
         # so offset windows are covered by k>1 (any k*n sub-window of the sequence is checked below)
         keys = ["request.target.host", "request.source.host", "to_string(request.target.port)", "strcat([request.listener, request.target.host])"]
@@ -56,6 +57,18 @@ def run(tier, seed, replay=None):
     lines = ["lb_seq %s %s %d %d %s %s %s t" % (h(lb_yaml(c["members"], c["algo"])), conns_all, c["count"], c["tasks"], h(q[0]), q[1], ",".join(c["targets"]))
              for c in cases]
     impl = run_impl(driver, lines)
+    # tight-loop stress of the atomic counter: every member exactly per*tasks/n times
+    stress = []
+    for n in (2, 3, 5, 7):
+        per = (3000 if tier == "quick" else 20000) * n
+        stress.append((n, per, 16, "lb_stress %s %s %d 16" % (h(lb_yaml(names[:n])), conns_all, per)))
+    sres = run_impl(driver, [s[3] for s in stress], shards=1, timeout=600)
+    for (n, per, tasks, _), o in zip(stress, sres):
+        counts = dict((bytes.fromhex(kv.split("=")[0]).decode(), int(kv.split("=")[1])) for kv in o.split(",")) if "=" in o else {}
+        want = per * tasks // n
+        if counts != {m: want for m in names[:n]}:
+            rep.fail("C17 oracle: %d tasks x %d tight-loop selections over %d members: counts %s, each member should get %d" % (tasks, per, n, counts or o[:80], want),
+                     {"kind": "failing-input", "scenarios": [dict(kind="stress", n=n, per=per, tasks=tasks)], "observed": o[:300]})
     dist, nt = {}, 0
     for c, line, oi in zip(cases, lines, impl):
         dist[c["kind"]] = dist.get(c["kind"], 0) + 1
@@ -106,7 +119,7 @@ def run(tier, seed, replay=None):
         rep.broken_obligation(broken[0], broken[1])
     rep.coverage.update({
         "evaluations": sum(c["count"] for c in cases), "distinct_nontrivial": nt,
-        "rule": "member lists of 1-7 entries (with duplicates), round robin over k*n sequential selections (every n-window checked), 6n selections from 2-32 concurrent tasks (multiset checked), hash-by over 4 key expressions x 6 requests x 4 repetitions, random with >= 60n draws, three invalid configurations; non-trivial = scenario that produced selections",
+        "rule": "member lists of 1-7 entries (with duplicates), round robin over k*n sequential selections (every n-window checked), 6n and 400n (2000n thorough) selections from 2-32 concurrent tasks (multiset checked), hash-by over 4 key expressions x 6 requests x 4 repetitions, random with >= 60n draws, three invalid configurations; non-trivial = scenario that produced selections",
         "input_distribution": dist,
         "samples": [dict(kind=cases[i]["kind"], members=cases[i]["members"], observed=impl[i][:120]) for i in range(0, len(cases), max(1, len(cases) // 5))][:5],
         "traces_validated_against_impl": nt,
